@@ -67,6 +67,12 @@ class C20:
         return hist
 
     def gen(self, rng, i, tier):
+        c = self.gen_(rng, i, tier)
+        if rng.random() < 0.5:
+            c['keys_by_setter'] = True        # IndexedCache() then .keys = [...] (how the library sets its caches up)
+        return c
+
+    def gen_(self, rng, i, tier):
         if tier == 'thorough':
             if self._exh is None:
                 self._exh = self.exhaustive()
@@ -243,7 +249,7 @@ class C20:
         return any(o == 'T' or (o.startswith('[') and o != '[]') for o in io['obs'])
 
     def stats(self, case, io):
-        d = {'ops': len(case['ops']), 'keys_%d' % len(case['keys']): 1}
+        d = {'ops': len(case['ops']), 'keys_%d' % len(case['keys']): 1, 'keys_assigned_after_construction': 1 if case.get('keys_by_setter') else 0}
         for op in case['ops']:
             d['op_' + op[0]] = d.get('op_' + op[0], 0) + 1
         d['most_general_selections'] = sum(1 for op in case['ops'] if op[0] == 'mg')
@@ -259,7 +265,7 @@ class C20:
         ops = case['ops']
         for i in range(len(ops) - 1, -1, -1):
             if len(ops) > 1:
-                yield dict(keys=case['keys'], ops=ops[:i] + ops[i + 1:])
+                yield dict(keys=case['keys'], ops=ops[:i] + ops[i + 1:], **({'keys_by_setter': True} if case.get('keys_by_setter') else {}))
         for k in case['keys']:
             if len(case['keys']) > 1:
                 ks = [x for x in case['keys'] if x != k]
